@@ -188,6 +188,13 @@ impl Check for C02 {
         "fault_enumeration"
     }
 
+    fn declared_probes(&self) -> Vec<&'static str> {
+        vec![
+            "fault.grid-fatal-failure",
+            "fault.grid-recoverable-failure",
+        ]
+    }
+
     fn rule(&self) -> String {
         format!(
             "(1) enumerated grid: {} instruction variants (every variant of every family, literal/exec pushes, inputs, blocks of 0-3 items) \
